@@ -4,6 +4,8 @@ import BddVerif.Model.Sched
 import BddVerif.Gen.OpTables
 import BddVerif.Model.Expr
 import BddVerif.Model.Rename
+import BddVerif.Model.Select
+import BddVerif.Model.Relation
 /-!
 Driver for C19. One case `C19.run n pool progs => seq thr again child after` is one multi-threaded
 run of the harness: `seq` = result texts of every thread's program run sequentially in the main
@@ -37,6 +39,26 @@ threads, and once shared by all threads; every query (`var_by_name`, `mk_(not_)v
 similar-but-unknown names) is asked of every build; observed = the DISTINCT results per query.
 Predicate: exactly one distinct result per query. Model: exact-match lookup in the name list
 (`ExprM.indexOfName`), `ExprM.evalExpr`, `Ren.transferFrom`; unknown name ⇒ `-` / `none` / `panic`.
+`C19.rng bdd vars r seed coins => det other`: everything that takes a caller-supplied generator
+(`random_valuation`, `random_clause`, `var_pick_random`, `pick_random`) on a diagram with long runs of free
+variables, each with a `StdRng::seed_from_u64(seed)` and with the recorded-coin generator, behind a wrapper that
+counts the draws; `det` = per (operation, generator) the distinct `result@draws` over `r` runs in one thread and `r`
+runs in threads, all identically seeded; `other` = per operation the `result@draws` of `r` runs with other seeds.
+Predicate: one distinct `result@draws` per (operation, generator); every result (any seed) is a satisfying
+valuation / a path to one / one of the two (2^d) possible picks; the number of draws equals the number of free and
+branching positions of the result (valuation), of branching nodes on the path (clause), 1, resp. the number of
+distinct variables — a callee that takes randomness from anywhere else draws too little. Model (coin runs):
+`Select.randomValuation`, `Select.randomClause`, `varPickRandom`, `pickRandom` with the same coins.
+`C19.hist n pool disturbance panel => ref after twice here hereAfter outcomes`: purity w.r.t. HISTORY. A fixed
+panel of reference operations (serialisers, also into accepting sinks; readers of good input; Boolean and
+relational operators; counts; normal forms; enumeration; parser + evaluation; dot export) is evaluated on a fresh
+thread (`ref`, texts), on a fresh thread after a DISTURBANCE — calls that fail: writers into sinks refusing at
+byte 0 / in the middle / with WriteZero / Interrupted-then-error, readers on truncated, malformed and failing
+input, operations that panic by design, limited operators giving up, partially consumed iterators, a builder
+that panicked — (`after`), twice in disturbance-panel-disturbance-panel (`twice`), on the harness's long-lived
+main thread before and after the disturbance (`here`, `hereAfter`). Predicate: all digests identical to `ref`.
+Model: the serialisers (`to_string`/`write_as_string` = the node text, `to_bytes`/`write_as_bytes` = 10
+little-endian bytes per node, the readers of good input = identity) and the Boolean operators are recomputed.
 -/
 namespace B.Drive.C19
 open B B.Drive Std
@@ -69,11 +91,30 @@ def isBddText (v : String) : Bool := v.front == '|' && !(v.endsWith "!operand-ch
 
 /-- the operations this driver recomputes with a Lean model -/
 def modelled (name : String) : Bool :=
-  ["and", "or", "xor", "imp", "iff", "and_not", "not", "ite"].contains name
+  ["and", "or", "xor", "imp", "iff", "and_not", "not", "ite",
+   "to_string", "wstring", "to_bytes", "wbytes", "rbytes", "rstring", "bytes_rt", "str_rt"].contains name
+
+def hex2 (b : Nat) : String :=
+  let d := fun (x : Nat) => Char.ofNat (if x < 10 then 48 + x else 87 + x)
+  String.ofList [d (b / 16 % 16), d (b % 16)]
+
+/-- little-endian bytes of `x`, `w` of them, as hex -/
+def leHex (x w : Nat) : String := String.join ((List.range w).map fun i => hex2 (x / 256 ^ i % 256))
+
+/-- `write_as_bytes`: per node 2 bytes variable, 4 bytes low link, 4 bytes high link, little-endian -/
+def bytesHex (A : Arr) : String := String.join (A.toList.map fun nd => leHex nd.var 2 ++ leHex nd.low 4 ++ leHex nd.high 4)
 
 def modelOp (name : String) (vs : List String) : Option String :=
   match name, vs.map parseArr? with
   | "not", [some A] => some (showArr (bddNot A))
+  | "to_string", [some A] => some (showArr A)
+  | "wstring", [some A] => some (showArr A)
+  | "to_bytes", [some A] => some (bytesHex A)
+  | "wbytes", [some A] => some (bytesHex A)
+  | "rbytes", [some A] => some (showArr A)
+  | "rstring", [some A] => some (showArr A)
+  | "bytes_rt", [some A] => some (showArr A)
+  | "str_rt", [some A] => some (showArr A)
   | "ite", [some A, some B, some C] =>
     if numVars A != numVars B || numVars B != numVars C then some "panic"
     else some (showArr (ternaryApply A B C Gen.ite_ none none none none))
@@ -124,6 +165,119 @@ def buildTable (calls : List (String × Option (List String) × String)) : Fold 
 def supportOf (A : Arr) : List Nat :=
   let vars := ((A.toList.drop 2).map (·.var)).eraseDups
   (vars.toArray.qsort (· < ·)).toList
+
+/-! ### caller-supplied generators (`C19.rng`) -/
+
+def rngOpName : Nat → String
+  | 0 => "random_valuation" | 1 => "random_clause" | 2 => "var_pick_random" | _ => "pick_random"
+
+def splitDraws (x : String) : String × String :=
+  match (x.splitOn "@").reverse with
+  | d :: rest => ("@".intercalate rest.reverse, d)
+  | [] => (x, "")
+
+def showSelVal : Select.Sel Select.Val → String
+  | .panic => "panic" | .none => "none" | .some v => showBits v
+
+def clauseText (n : Nat) (c : Select.Clause) : String :=
+  if n == 0 then "~" else String.ofList ((List.range n).map fun i =>
+    match Select.getC c i with | some true => '1' | some false => '0' | none => '-')
+
+def showSelClause (n : Nat) : Select.Sel Select.Clause → String
+  | .panic => "panic" | .none => "none" | .some c => clauseText n c
+
+/-- walk along a valuation: (reached terminal, draws = free positions + branching nodes met) -/
+def walkVal (A : Arr) (v : List Bool) : Nat → Nat → Nat → Nat → Nat × Nat
+  | 0, _, p, d => (p, d)
+  | k + 1, i, p, d =>
+    let nd := nodeAt A p
+    if nd.var != i then walkVal A v k (i + 1) p (d + 1)
+    else
+      let b := v.getD i false
+      walkVal A v k (i + 1) (if b then nd.high else nd.low) (if nd.low != 0 && nd.high != 0 then d + 1 else d)
+
+/-- walk along a clause from the root: (reached pointer or `none` if a tested variable is not fixed, nodes met,
+    branching nodes met) -/
+def walkClause (A : Arr) (c : List Char) : Nat → Nat → Nat → Nat → Option (Nat × Nat × Nat)
+  | 0, p, m, d => some (p, m, d)
+  | fuel + 1, p, m, d =>
+    if p < 2 then some (p, m, d) else
+    let nd := nodeAt A p
+    let br := if nd.low != 0 && nd.high != 0 then d + 1 else d
+    match c.getD nd.var '-' with
+    | '1' => walkClause A c fuel nd.high (m + 1) br
+    | '0' => walkClause A c fuel nd.low (m + 1) br
+    | _ => none
+
+def allCoinLists : Nat → List (List Bool)
+  | 0 => [[]]
+  | k + 1 => (allCoinLists k).flatMap fun l => [false :: l, true :: l]
+
+def pickCandidates (A : Arr) (vars : List Nat) : List String :=
+  if !(vars.all (· < numVars A)) then ["panic"] else
+  (allCoinLists (min (pickRandomDraws vars) 6)).map fun fl => showArr (pickRandom A vars fl)
+
+def varPickCandidates (A : Arr) (vars : List Nat) : List String :=
+  match vars with
+  | [] => ["novar"]
+  | x :: _ => if x < numVars A then [showArr (varPickRandom A x false), showArr (varPickRandom A x true)] else ["panic"]
+
+/-- the model's `result@draws` for the recorded coins -/
+def rngModel (A : Arr) (n : Nat) (vars : List Nat) (coins : List Bool) (op : Nat) : String :=
+  match op with
+  | 0 =>
+    let res := showSelVal (Select.randomValuation A coins)
+    res ++ "@" ++ toString (if A.size ≤ 1 then 0 else (walkVal A (parseBits res) n 0 (root A) 0).2)
+  | 1 =>
+    let res := showSelClause n (Select.randomClause A coins)
+    res ++ "@" ++ toString (((walkClause A res.toList (A.size + 1) (root A) 0 0).map (·.2.2)).getD 0)
+  | 2 =>
+    match vars with
+    | [] => "novar@0"
+    | x :: _ => if x < n then showArr (varPickRandom A x (coins.headD false)) ++ "@1" else "panic@1"
+  | _ => if vars.all (· < n) then showArr (pickRandom A vars coins) ++ s!"@{pickRandomDraws vars}" else "panic@0"
+
+/-- the property's clauses on one observed `result@draws` of operation `op` (any generator, any seed) -/
+def rngCheck (A : Arr) (n : Nat) (vars : List Nat) (picks vpicks : List String) (op : Nat) (x : String) : Option String :=
+  let (res, drawsS) := splitDraws x
+  let draws := drawsS.toNat?.getD 1000000000
+  let nm := rngOpName op
+  match op with
+  | 0 =>
+    if A.size ≤ 1 then (if res == "none" && draws == 0 then none else some s!"{nm}:false-diagram") else
+    let v := parseBits res
+    if res.length != n && !(n == 0 && res == "~") then some s!"{nm}:not-a-valuation" else
+    let w := walkVal A v n 0 (root A) 0
+    if w.1 != 1 then some s!"{nm}:result-does-not-satisfy-the-Bdd"
+    else if w.2 != draws then some s!"{nm}:draws-{draws}-but-{w.2}-free-or-branching-positions"
+    else none
+  | 1 =>
+    if A.size ≤ 1 then (if res == "none" && draws == 0 then none else some s!"{nm}:false-diagram") else
+    match walkClause A res.toList (A.size + 1) (root A) 0 0 with
+    | some (p, met, br) =>
+      let fixed := (res.toList.filter fun c => c == '0' || c == '1').length
+      if p != 1 then some s!"{nm}:result-is-not-a-path-to-one"
+      else if fixed != met then some s!"{nm}:fixes-variables-off-the-path"
+      else if br != draws then some s!"{nm}:draws-{draws}-but-{br}-branching-nodes"
+      else none
+    | none => some s!"{nm}:result-is-not-a-path-to-one"
+  | 2 =>
+    if !(vpicks.contains res) then some s!"{nm}:result-is-not-one-of-the-two-picks"
+    else if draws != (if vars.isEmpty then 0 else 1) then some s!"{nm}:draws-{draws}-expected-1"
+    else none
+  | _ =>
+    if !(picks.contains res) then some s!"{nm}:result-is-not-a-pick-for-any-coins"
+    else if res != "panic" && draws != pickRandomDraws vars then some s!"{nm}:draws-{draws}-expected-{pickRandomDraws vars}"
+    else none
+
+/-- longest run of consecutive variables that no node tests -/
+def longestFreeRun (A : Arr) (n : Nat) : Nat :=
+  let tested := ((A.toList.drop 2).map (·.var)).eraseDups
+  let sorted := (tested.toArray.qsort (· < ·)).toList
+  let rec go (prev : Nat) (best : Nat) : List Nat → Nat
+    | [] => max best (n - prev)
+    | x :: rest => go (x + 1) (max best (x - prev)) rest
+  go 0 0 sorted
 
 /-! ### name resolution (`C19.names`) -/
 
@@ -233,6 +387,42 @@ def handle (key : String) (ins obs : List String) : Verdict :=
         if progTexts.eraseDups.length < nThreads then "shared-program" else "distinct-programs"] ++
         (if all.contains "panic" then ["has-panic"] else []) ++ (if all.contains "stuck" then ["has-stuck"] else []) ++
         (if calls.any (fun c => modelled (opName c.1)) then ["has-modelled-op"] else []) }
+  | "C19.hist", [_n, poolS, distS, panelS], [refS, afterS, twiceS, hereS, hereAfterS, outcomesS] =>
+    -- the panel on a fresh thread = after a disturbance = after disturbance, panel, disturbance = on the harness's
+    -- main thread (whatever it did before) = there after the disturbance
+    let pool := splitList "/" poolS
+    let prog := (splitList ";" panelS).map parseInstr
+    let ref := splitList ";" refS
+    if ref.length != prog.length then { agree := false, model := "shape", fail := some "shape", nontrivial := false } else
+    let calls := observedCalls pool prog ref
+    let fold := buildTable calls
+    let modelRes := (Sched.runSeq (opFn fold.table) prog pool).map showRes
+    let agree := modelRes == ref
+    let model := if agree then "" else
+      let i := ((modelRes.zip ref).takeWhile fun (a, b) => a == b).length
+      s!"instr{i}:{(prog.getD i ⟨"?", []⟩).op}:{(modelRes.getD i "-").take 100}"
+    let h := hashesOf ref
+    let firstDiff (obsS : String) : String :=
+      -- name of the first panel operation whose digest differs
+      let hs := ref.map fun r => toString (fnv r).toNat
+      let os := (obsS.splitOn "/").map (splitList ".")
+      match (List.range ref.length).find? fun i => os.any fun o => o.getD i "" != hs.getD i "-" with
+      | some i => opName ((prog.getD i ⟨"?", []⟩).op) ++ s!"@{i}"
+      | none => "shape"
+    let clause (what obsS want : String) : Option String :=
+      if obsS == want then none else some s!"result-depends-on-history:{what}:{firstDiff obsS}"
+    let fail := firstFail [
+      clause "after-disturbance" afterS h,
+      clause "after-disturbance-panel-disturbance" twiceS (h ++ "/" ++ h),
+      clause "on-the-long-lived-thread" hereS h,
+      clause "on-the-long-lived-thread-after-disturbance" hereAfterS h,
+      if ref.any (·.endsWith "!operand-changed") then some "operand-changed" else none,
+      fold.conflict]
+    let kinds := ((splitList ";" distS).map fun d => (d.splitOn ":").headD "").eraseDups
+    let outs := (splitList "." outcomesS)
+    { agree, model, fail, nontrivial := true,
+      tags := ["hist"] ++ kinds.map (fun k => "d-" ++ k) ++
+        (if outs.contains "panic" then ["d-panicked"] else []) ++ (if outs.contains "err" then ["d-err"] else []) }
   | "C19.rep", [_n, poolS, progS, repsS], [firstS, inprocS, threadsS, childS] =>
     -- every operation of `progS` evaluated `reps` times in one thread / on fresh threads / in a child process
     let pool := splitList "/" poolS
@@ -296,6 +486,39 @@ def handle (key : String) (ins obs : List String) : Verdict :=
     { agree, model, fail, nontrivial := namesA.length ≥ 2,
       tags := ["names", if similarGroups then "case-or-prefix-similar" else "other-similar",
         if modelRes.any (· == "-") then "has-unknown" else "all-known"] }
+  | "C19.rng", [bddS, varsS, rS, _seedS, coinsS], [detS, otherS] =>
+    match parseArr? bddS with
+    | none => Verdict.bad "args"
+    | some A =>
+      let n := numVars A
+      let vars := (splitList "." varsS).filterMap (·.toNat?)
+      let coins := parseBits coinsS
+      let r := rS.toNat?.getD 0
+      let det := (detS.splitOn ";").map (·.splitOn "#")
+      let other := (otherS.splitOn ";").map (·.splitOn "#")
+      if det.length != 8 || other.length != 4 || r < 8 || other.any (·.length != r) then
+        { agree := false, model := "shape", fail := some "shape", nontrivial := false } else
+      -- the model's answers for the recorded coins
+      let modelCoin : List String := (List.range 4).map (rngModel A n vars coins)
+      let coinObs := (List.range 4).map fun op => det.getD (2 * op + 1) []
+      let agree := (modelCoin.zip coinObs).all fun (m, o) => o == [m]
+      let model := if agree then "" else
+        match ((List.range 4).zip (modelCoin.zip coinObs)).find? fun (_, m, o) => o != [m] with
+        | some (op, m, _) => s!"{rngOpName op}:{m.take 120}"
+        | none => "?"
+      let picks := pickCandidates A vars
+      let vpicks := varPickCandidates A vars
+      let checkAll (op : Nat) (xs : List String) : Option String := xs.findSome? (rngCheck A n vars picks vpicks op)
+      let fail := firstFail (
+        ((List.range 8).map fun i =>
+          let o := det.getD i []
+          if o.length == 1 then none
+          else some s!"rng-not-deterministic:{rngOpName (i / 2)}:{if i % 2 == 0 then "StdRng" else "CoinRng"}:{o.length}-distinct-results-or-draw-counts") ++
+        ((List.range 8).map fun i => checkAll (i / 2) (det.getD i [])) ++
+        ((List.range 4).map fun op => checkAll op (other.getD op [])))
+      let maxGap := longestFreeRun A n
+      { agree, model, fail, nontrivial := n > 0,
+        tags := ["rng", if maxGap ≥ 64 then "gap>=64" else if maxGap == 63 then "gap63" else "gap<63", s!"levels{A.size - 2}"] }
   | _, _, _ => Verdict.bad ("key " ++ key)
 
 end B.Drive.C19
